@@ -157,8 +157,34 @@ def analyse(run: Any, expects: Dict[tuple, Expect], retire_probe: bool = True) -
             op_end_seq[(e[1], e[2])] = seq
 
     aborted = run.status != "ok"
+    async_iv: Dict[str, List[tuple]] = {}   # owner participant -> [(start_seq, end_seq, tok, nid)] of async-thread nodes in flight
+    for tok, ea in toks.items():
+        started: Dict[str, int] = {}
+        for seq, e in ea.events:
+            if e[0] == "dispatch_async" or (e[0] == "submit" and e[3] == "async"):
+                started.setdefault(e[2], seq)
+            elif e[0] == "exit" and e[2] in started:
+                async_iv.setdefault(ea.owner, []).append((started.pop(e[2]), seq, tok, e[2]))
+        for nid, s0 in started.items():
+            async_iv.setdefault(ea.owner, []).append((s0, len(events) + 1, tok, nid))
     for tok, ea in toks.items():
         W = _analyse_exec(run, ea, retire_probe, aborted, op_end_seq)
+        keep = []
+        for w in W:
+            if w["g"] != "loop_blocked_candidate":
+                keep.append(w)
+                continue
+            # C17.c starvation: the loop thread sits in a blocking seam while an async-thread node (of any execution on
+            # that loop) is in flight and no thread-resource node of the blocking execution is in flight
+            if w["own_threads"]:
+                run.rt.probe("loop_blocked_by_thread_node")
+                continue
+            live = [iv for iv in async_iv.get(w["part"], []) if iv[0] < w["seq"] < iv[1]]
+            if live:
+                keep.append(viol("loop_blocked", f"event loop thread parked in a blocking wait while async-thread node {live[0][3]} "
+                                 f"(execution {live[0][2]}) is running and no thread node of this execution is in flight",
+                                 op=w["op"], tok=w["tok"], seq=w["seq"]))
+        W = keep
         if ea.ex is not None and ea.ex.kind == "rerun":
             # second run of an executor: whatever goes wrong in it is the single-use clause (C15.c)
             for w in W:
@@ -320,8 +346,15 @@ def _state_ops(run: Any, key: tuple, ex: Expect, out: dict, seen: Dict[tuple, An
         if bad:
             return [viol("state_leak", f"DAG.results keys changed by {sorted(bad)[:5]} (not setup nodes)", op=key)]
         return []
+    if ex.kind == "snapshot" and ex.note:
+        # two flavours of one describing function: the recorded results of real nodes (setup results) must agree
+        cur_r = {k: v for k, v in out["value"]["results"].items() if k in table and table[k]["role"] == "main"}
+        base_r = seen.setdefault(("snap", ex.note), cur_r)
+        if base_r != cur_r:
+            return [viol("state_leak", f"recorded results differ between the two flavours: {sorted(set(base_r.items() if False else base_r) ^ set(cur_r))[:5]}", op=key)]
+        return []
     if ex.kind == "snapshot":
-        base = seen.setdefault(("snap", ex.inst), out["value"])
+        base = seen.setdefault(("snap", ex.note or ex.inst), out["value"])
         cur = out["value"]
         if base["nodes"] != cur["nodes"] or base["edges"] != cur["edges"]:
             return [viol("state_leak", "node table / dependency edges of the DAG changed", op=key)]
